@@ -157,3 +157,113 @@ impl<'de> Deserialize<'de> for AnyValue {
         d.deserialize_any(AnyVisitor)
     }
 }
+
+/// Like `AnyValue` but retains nothing: the harness must not be the one that allocates for a
+/// count declared in the data.
+#[derive(Clone, Copy, Debug, PartialEq)]
+pub struct Discard;
+
+struct DiscardVisitor;
+
+impl<'de> Visitor<'de> for DiscardVisitor {
+    type Value = Discard;
+
+    fn expecting(&self, f: &mut fmt::Formatter) -> fmt::Result {
+        f.write_str("anything")
+    }
+    fn visit_bool<E: serde::de::Error>(self, _: bool) -> Result<Discard, E> {
+        tick()?;
+        Ok(Discard)
+    }
+    fn visit_i64<E: serde::de::Error>(self, _: i64) -> Result<Discard, E> {
+        tick()?;
+        Ok(Discard)
+    }
+    fn visit_u64<E: serde::de::Error>(self, _: u64) -> Result<Discard, E> {
+        tick()?;
+        Ok(Discard)
+    }
+    fn visit_i128<E: serde::de::Error>(self, _: i128) -> Result<Discard, E> {
+        tick()?;
+        Ok(Discard)
+    }
+    fn visit_u128<E: serde::de::Error>(self, _: u128) -> Result<Discard, E> {
+        tick()?;
+        Ok(Discard)
+    }
+    fn visit_f32<E: serde::de::Error>(self, _: f32) -> Result<Discard, E> {
+        tick()?;
+        Ok(Discard)
+    }
+    fn visit_f64<E: serde::de::Error>(self, _: f64) -> Result<Discard, E> {
+        tick()?;
+        Ok(Discard)
+    }
+    fn visit_char<E: serde::de::Error>(self, _: char) -> Result<Discard, E> {
+        tick()?;
+        Ok(Discard)
+    }
+    fn visit_str<E: serde::de::Error>(self, _: &str) -> Result<Discard, E> {
+        tick()?;
+        Ok(Discard)
+    }
+    fn visit_string<E: serde::de::Error>(self, _: String) -> Result<Discard, E> {
+        tick()?;
+        Ok(Discard)
+    }
+    fn visit_bytes<E: serde::de::Error>(self, _: &[u8]) -> Result<Discard, E> {
+        tick()?;
+        Ok(Discard)
+    }
+    fn visit_byte_buf<E: serde::de::Error>(self, _: Vec<u8>) -> Result<Discard, E> {
+        tick()?;
+        Ok(Discard)
+    }
+    fn visit_none<E: serde::de::Error>(self) -> Result<Discard, E> {
+        tick()?;
+        Ok(Discard)
+    }
+    fn visit_some<D: Deserializer<'de>>(self, d: D) -> Result<Discard, D::Error> {
+        tick()?;
+        Discard::deserialize(d)
+    }
+    fn visit_unit<E: serde::de::Error>(self) -> Result<Discard, E> {
+        tick()?;
+        Ok(Discard)
+    }
+    fn visit_newtype_struct<D: Deserializer<'de>>(self, d: D) -> Result<Discard, D::Error> {
+        tick()?;
+        Discard::deserialize(d)
+    }
+    fn visit_seq<A: SeqAccess<'de>>(self, mut seq: A) -> Result<Discard, A::Error> {
+        tick()?;
+        while seq.next_element::<Discard>()?.is_some() {
+            tick()?;
+        }
+        Ok(Discard)
+    }
+    fn visit_map<A: MapAccess<'de>>(self, mut map: A) -> Result<Discard, A::Error> {
+        tick()?;
+        while map.next_key::<Discard>()?.is_some() {
+            tick()?;
+            map.next_value::<Discard>()?;
+        }
+        Ok(Discard)
+    }
+    fn visit_enum<A: EnumAccess<'de>>(self, data: A) -> Result<Discard, A::Error> {
+        tick()?;
+        let (_, access) = data.variant::<Discard>()?;
+        access.unit_variant()?;
+        Ok(Discard)
+    }
+}
+
+impl<'de> Deserialize<'de> for Discard {
+    fn deserialize<D: Deserializer<'de>>(d: D) -> Result<Discard, D::Error> {
+        d.deserialize_any(DiscardVisitor)
+    }
+}
+
+pub fn budget_exhausted() -> bool {
+    VISITS.with(|v| v.get()) > VISIT_BUDGET.with(|b| b.get())
+}
